@@ -156,7 +156,7 @@ let () =
                     match out with
                     | OutUnit -> print_endline "OK"
                     | OutConsume true -> print_endline "SOME"
-                    | OutConsume false -> print_endline "NONE"
+                    | OutConsume false -> Printf.printf "NONE %d\n" (List.length s'.r_ready)
                     | OutNoLink -> print_endline "NOLINK"
                     | OutDrain ns -> print_endline ("[" ^ String.concat " | " (List.map show_notification ns) ^ "]"))
                 | Err _ ->
